@@ -8,7 +8,7 @@ Inductive verdict :=
 | VUndecodable            (* C03: the response does not decode *)
 | VHeader                 (* C03: ID / opcode / QR / RA / RD *)
 | VQuestionLocal          (* C03: question of a locally generated response *)
-| VQuestionRelayed        (* C03: question of a relayed upstream reply (finding K4) *)
+| VQuestionRelayed        (* C03: question of a relayed upstream reply (finding K4, fixed) *)
 | VRcode                  (* C03: rcode table *)
 | VOptCount               (* C12: OPT iff the query had one *)
 | VOptForm                (* C12: OPT is the proxy's own, no options *)
@@ -16,10 +16,6 @@ Inductive verdict :=
 | VUpstreamWire           (* C10: forwarded question / RD / shape *)
 | VUpstreamOpt            (* C12: upstream query OPT / ECS *)
 | VSize.                  (* C09: transport size limit *)
-
-Definition q_eq_ci (a b : question) : bool :=
-  list_eqb (to_lower_name (q_name a)) (to_lower_name (q_name b)) &&
-  (q_type a =? q_type b)%N && (q_class a =? q_class b)%N.
 
 Definition all_rrs (m : msg) : list rr := m_an m ++ m_ns m ++ m_ar m.
 
